@@ -139,6 +139,10 @@ def _run_shard_subprocess(prop, spec, workdir):
         env.update(_asan_env(logbase))
     timeout = spec.get('timeout', 900)
     cmd = [PY, os.path.join(VERIF, 'vcheck'), prop, '--shard', spec_path, '--out', out_path]
+    vglog = os.path.join(workdir, f'{name}.valgrind')
+    if spec.get('valgrind'):
+        env['PYTHONMALLOC'] = 'malloc'
+        cmd = ['valgrind', '--tool=memcheck', '--error-exitcode=0', '--num-callers=25', f'--log-file={vglog}'] + cmd
     t0 = time.time()
     def limit():
         if spec.get('build') != 'asan':
@@ -156,6 +160,9 @@ def _run_shard_subprocess(prop, spec, workdir):
             res['report'] = json.load(open(out_path))
         except Exception as e:  # truncated by a crash
             res['stderr'] += f'\n[report unreadable: {e}]'
+    if spec.get('valgrind') and os.path.exists(vglog):
+        res['valgrind_blocks'] = _valgrind_blocks(open(vglog, errors='replace').read())
+        res['valgrind_ran'] = 'ERROR SUMMARY' in open(vglog, errors='replace').read()
     for fn in sorted(os.listdir(workdir)):
         if fn.startswith(f'{name}.san'):
             res['sanitizer_logs'].append(open(os.path.join(workdir, fn), errors='replace').read()[-6000:])
@@ -165,6 +172,22 @@ def _run_shard_subprocess(prop, spec, workdir):
         except Exception:
             pass
     return res
+
+
+def _valgrind_blocks(text):
+    """memcheck error blocks that have a frame inside the shim / parsing.h (loader and interpreter noise is dropped)"""
+    out, cur = [], []
+    for line in text.split('\n'):
+        body = re.sub(r'^==\d+== ?', '', line)
+        if body.strip() == '':
+            if cur:
+                blk = '\n'.join(cur)
+                if re.search(r'shim_|parsing\.h|parse_sentence|parsing::', blk) and re.match(r'(Conditional|Use of|Invalid|Syscall|Mismatched|Source and)', cur[0]):
+                    out.append(blk[:3000])
+                cur = []
+        else:
+            cur.append(body)
+    return out
 
 
 def _sanitizer_key(log):
@@ -239,6 +262,14 @@ def main(argv=None):
                 merged['vcount'][key] = merged['vcount'].get(key, 0) + 1
                 merged['violations'].append({'key': key, 'what': 'sanitizer report while running the search',
                                              'witness': {'case': r['last'], 'log': log, 'shard': r['spec']}})
+        for blk in (r.get('valgrind_blocks') or [])[:3]:
+            m = re.search(r'(?:at|by) 0x[0-9A-F]+: (\S+) \((parsing\.h:\d+|shim[^)]*)\)', blk)
+            key = 'sanitizer:valgrind:' + (blk.split('\n')[0][:40].strip().replace(' ', '-') + ':' + (m.group(1) if m else 'unknown'))
+            merged['vcount'][key] = merged['vcount'].get(key, 0) + 1
+            merged['violations'].append({'key': key, 'what': 'valgrind memcheck report with a frame inside the search',
+                                         'witness': {'log': blk, 'shard': r['spec']}})
+        if r['spec'].get('valgrind'):
+            merged['monitors']['valgrind:shards-completed'] = merged['monitors'].get('valgrind:shards-completed', 0) + (1 if r.get('valgrind_ran') else 0)
         if rep is None:
             if r['rc'] == 'timeout':
                 inconclusive.append(f'shard {r["name"]} hit the wall-clock watchdog')
